@@ -18,6 +18,11 @@ real `ladim.configure.configure(file)` on each, and
   dictionary as empty ones and as sections written without content (YAML null); plus, on free trees, the
   version rule (explicit version, else time_control => v1) and the warm-start rewriting.
 
+SCALE cases (c18_scale.py, always first, no random draws): the same oracle in a directory that holds a forcing
+archive of 13 ... 1500 real files matched by `*` / `????`, the simulation starting in the first, a middle, the last
+file or after the end (dictionary level for the long archives, end to end for 13 / 40 / 100 files), a run of 1200
+steps through 50 files, a release of 40000 rows, 40 extra release columns.
+
 Strings are sent to Coq as a per-case table of UTF-8 byte strings (real characters: the wildcard,
 legacy-module-name and version tests are made on them); trees refer to table indices.
 """
@@ -38,6 +43,8 @@ import numpy as np
 
 import romsfiles as rf
 
+import c18_scale
+
 PROP = "C18"
 THEOREM_FILE = "Props/C18.v"
 CHECKER = "Corr.C18"
@@ -47,7 +54,8 @@ RULE = ("Descriptions over the v1 vocabulary (discrete/continuous release, relea
         "absent/0/0.0/positive, subgrid, extra forcing, grid file given / defaulted from a plain, `*` or `?` forcing "
         "name, legacy and current module names, files-section spelling) x {v1 YAML, v2 YAML, v2 TOML, v2 with empty "
         "optional sections} x {optional sections written, omitted}; plus free trees for the version dispatch, missing "
-        "and null sections and the warm-start branch. Non-trivial = distinct description whose three spellings "
+        "and null sections and the warm-start branch; plus 13 fixed scale descriptions (wildcard over 13-1500 forcing "
+        "files with the start anywhere in the series, 1200 steps, 40000 release rows, 40 extra columns). Non-trivial = distinct description whose three spellings "
         "were all accepted by configure and compared (dictionary level), counted once per description.")
 TRUSTED = ["Coq 8.16.1 kernel + vm_compute", "hand-written model coq/Model/Config.v tied by this correspondence",
            "PyYAML / tomli parsers (the tree after parsing is the model's input)", "pathlib.Path normalisation and glob",
@@ -662,8 +670,11 @@ def expansion_of(pattern, files):
     return sorted(f for f in files if "/" not in f and fnmatch.fnmatchcase(f, pattern))
 
 
-def write_release_file(d, S):
-    """a release file that fits the column names of S"""
+def write_release_file(d, S, t0=0, nrows=None, zfac=1.0):
+    """a release file that fits the column names of S (scale cases: nrows rows, first release at t0 seconds)"""
+    if nrows is not None:
+        (d / "release.rls").write_text(c18_scale.release_table(S, t0, nrows, zfac))
+        return
     rows = []
     for k, (t, x, y, z) in enumerate([(0, 5.0, 5.0, 1.0), (0, 6.5, 4.25, 2.0), (3600, 4.0, 6.0, 0.5), (7200, 7.0, 3.0, 1.5)]):
         row = []
@@ -679,9 +690,16 @@ def write_release_file(d, S):
 # =====================================================================================================
 def eval_case(desc, ctx):
     cwd = os.getcwd()
-    d = make_dir(ctx, desc, f"case_{desc['id']}")
+    if desc["k"] == "scale":
+        desc = dict(desc, files=c18_scale.file_list(desc["n"]))
+        d = make_dir(ctx, dict(desc, files=[]), f"case_{desc['id']}")
+        c18_scale.populate(d, master_dir(ctx), desc["n"])
+    else:
+        d = make_dir(ctx, desc, f"case_{desc['id']}")
     os.chdir(d)
     try:
+        if desc["k"] == "scale":
+            return eval_scale(desc, ctx, d)
         if desc["k"] == "sim":
             return eval_sim(desc, ctx, d)
         return eval_tree(desc, ctx, d)
@@ -701,6 +719,24 @@ def parse_file(fname):
         return canon(yaml.safe_load(f))
 
 
+def eval_scale(desc, ctx, d):
+    """the ordinary oracle of a description (eval_sim: (a) module arguments, (b) output files, (c) defaulted grid =
+    first file of the sorted expansion) in a directory that holds a long forcing archive; see c18_scale.py.
+    The Coq checker gets the small archives only (the expansion is part of the literal)."""
+    res = eval_sim(desc, ctx, d)
+    if res["oracle"]:
+        res["oracle"] = f"scale case [{desc['label']}]: {res['oracle']}"
+    if not desc.get("coq"):
+        res["ints"] = None
+    res["kind"] = "scale-" + res["kind"]
+    res["observed"]["label"] = desc["label"]
+    return res
+
+
+def brief(l):
+    return str(l) if len(l) <= 8 else f"[{l[0]!r}, {l[1]!r}, ... {len(l)} files ..., {l[-1]!r}]"
+
+
 def eval_sim(desc, ctx, d):
     import random
 
@@ -709,7 +745,7 @@ def eval_sim(desc, ctx, d):
     expansion = expansion_of(S["forcing_file"], desc["files"])
     ok_wf = wf(S, expansion)
     if desc.get("run"):
-        write_release_file(d, S)
+        write_release_file(d, S, desc.get("rel_t0", 0), desc.get("rel_n"), desc.get("rel_zfac", 1.0))
     o_yaml, o_toml = desc["omit"]
     files = [("v1", "v1.yaml", 1, False, emit_yaml(tree_v1(S), rng)),
              ("v2yaml", "v2.yaml", 2, o_yaml, emit_yaml(tree_v2(S, o_yaml), rng)),
@@ -765,7 +801,7 @@ def eval_sim(desc, ctx, d):
             g = obs_all["v2omit"][1]["grid"]
             if g.get("module") != v2_module(S) or g.get("filename") != want:
                 oracle = oracle or (f"(c) omitted grid section: got module={g.get('module')!r} filename={g.get('filename')!r}, "
-                                    f"expected module={v2_module(S)!r} filename={want!r} (forcing {S['forcing_file']!r}, files {expansion})")
+                                    f"expected module={v2_module(S)!r} filename={want!r} (forcing {S['forcing_file']!r}, files {brief(expansion)})")
     # (b) the three runs write the same output
     ran = False
     if oracle is None and ok_wf and desc.get("run"):
@@ -787,6 +823,8 @@ def eval_sim(desc, ctx, d):
             t2["release"]["release_frequency"] = S["frequency"]
             Path("v2f.yaml").write_text(emit_yaml(t2, rng), encoding="utf-8")
             spell.append(("v2 with the dormant release_frequency kept (continuous: false)", "v2f.yaml"))
+        if desc.get("spellings"):
+            spell = [sp for sp in spell if sp[0] in desc["spellings"]]
         for name, fname in spell:
             Path("out.nc").unlink(missing_ok=True)
             msg = run_main(fname)
@@ -1035,7 +1073,8 @@ VERSIONS = [(2, "v2"), ("2.0", "v2"), (2.0, "v2"), ("2", "v2"), (1, "v1"), ("1",
 def gen_cases(ctx):
     rng = ctx.rng
     nsim, nrun, ntree = (70, 26, 90) if ctx.quick else (700, 260, 700)
-    out = []
+    # scale cases first: deterministic, no random draws (the random cases below are what they were)
+    out = c18_scale.scale_cases()
     cid = 0
     for i in range(nsim):
         run = i < nrun
